@@ -995,6 +995,10 @@ class _Idioms(ast.NodeTransformer):
             if not kw:
                 self.applied.append("fromfile-keywords")
                 return ast.Call(func=n.func, args=args, keywords=[])
+        # str(x)  ->  f'{x}'   (one spelling for "the text of x"; concatenations become f-strings too)
+        if f == "str" and len(n.args) == 1 and not n.keywords and not isinstance(n.args[0], ast.Starred):
+            self.applied.append("str-call")
+            return ast.JoinedStr(values=[ast.FormattedValue(value=n.args[0], conversion=-1, format_spec=None)])
         # str(b, 'ascii')  ->  b.decode('ascii')
         if f == "str" and len(n.args) in (2, 3) and not n.keywords:
             self.applied.append("str-decode")
@@ -1101,6 +1105,49 @@ class _Idioms(ast.NodeTransformer):
                 self.applied.append("str.format")
                 return ast.JoinedStr(values=parts)
         return None
+
+    @staticmethod
+    def _is_strpiece(e):
+        return (isinstance(e, ast.Constant) and isinstance(e.value, str)) or isinstance(e, ast.JoinedStr) or \
+            (isinstance(e, ast.Call) and isinstance(e.func, ast.Name) and e.func.id == "str" and len(e.args) == 1
+             and not e.keywords)
+
+    def visit_BinOp(self, n):
+        self.generic_visit(n)
+        # 'a' + str(x) + f'{y}' + z  ->  f'a{x}{y}{z}'   (one piece is known to be a string, so `+` concatenates)
+        if not isinstance(n.op, ast.Add):
+            return n
+        parts, stack = [], [n]
+        while stack:
+            e = stack.pop()
+            if isinstance(e, ast.BinOp) and isinstance(e.op, ast.Add):
+                stack.append(e.right)
+                stack.append(e.left)
+            else:
+                parts.append(e)
+        if len(parts) < 2 or not any(self._is_strpiece(e) for e in parts):
+            return n
+        if any(isinstance(e, (ast.List, ast.Tuple, ast.ListComp, ast.Dict)) or
+               (isinstance(e, ast.Constant) and not isinstance(e.value, str)) for e in parts):
+            return n
+        vals = []
+        for e in parts:
+            if isinstance(e, ast.Constant):
+                vals.append(e)
+            elif isinstance(e, ast.JoinedStr):
+                vals.extend(e.values)
+            elif self._is_strpiece(e):
+                vals.append(ast.FormattedValue(value=e.args[0], conversion=-1, format_spec=None))
+            else:
+                vals.append(ast.FormattedValue(value=e, conversion=-1, format_spec=None))
+        merged = []
+        for x in vals:
+            if merged and isinstance(x, ast.Constant) and isinstance(merged[-1], ast.Constant):
+                merged[-1] = ast.Constant(value=merged[-1].value + x.value)
+            else:
+                merged.append(x)
+        self.applied.append("str-concat")
+        return ast.fix_missing_locations(ast.copy_location(ast.JoinedStr(values=merged), n))
 
     def visit_Attribute(self, n):
         self.generic_visit(n)
